@@ -281,7 +281,7 @@ Outcome run_files_ga(const Plan & plan, const RunCtx & ctx)
     SimRandom rs(hmix(hstr("files-ga-shots"), plan.hash()));
     i64 shot_ok = 0, shot_threw = 0, nonfinite = 0, budget = 0;
     for (int i = 0; i < 200; i++) {
-      rs.begin_op(200000);
+      rs.begin_op(5000000);
       bxdecay0::event ev;
       try {
         if (through_generator) gen->shoot(rs, ev); else ga->shoot(rs, ev);
@@ -294,7 +294,12 @@ Outcome run_files_ga(const Plan & plan, const RunCtx & ctx)
     out.ctr["shots_after_accepted_table"] += shot_ok;
     out.ctr["shots_threw_after_accepted_table"] += shot_threw;
     out.ctr["diag_nonfinite_shots_after_accepted_table"] += nonfinite;
-    out.ctr["diag_shot_budget_exhausted_after_accepted_table"] += budget;
+    out.ctr["shot_budget_exhausted_after_accepted_table"] += budget;
+    // "never loops forever": a table the loader accepted must be usable. 5e6 deviates for one shot is 10^4 times what the
+    // worst valid table needs; a damaged value can make rejection sampling inefficient by the inverse of the grid size, not more
+    if (budget > 0 && check)
+      out.fail("C15", "unbounded-work-after-accepted-table", "unbounded-work-after-accepted-table " + sigctx,
+               "the loader accepted the damaged table, then one shot consumed more than 5000000 deviates without returning (shots completed before: " + std::to_string(shot_ok) + ")");
     if (bad != valid) out.ctr["probe_damaged_table_accepted"]++;
   }
   // ---- the same object again: a rejected table must not poison the next load ("again" ops) ----------
